@@ -3,6 +3,7 @@
 mod common;
 mod s_bigrat;
 mod s_biguint;
+mod s_date;
 mod s_text;
 
 use std::io::{self, BufRead, Write};
@@ -14,6 +15,7 @@ fn main() {
     let f: fn(&str) -> String = match stream {
         "biguint" => s_biguint::line,
         "bigrat" => s_bigrat::line,
+        "date" => s_date::line,
         "eval" => s_text::eval_line,
         "evalctx" => s_text::evalctx_line,
         "json" => s_text::json_line,
